@@ -191,6 +191,18 @@ var solvers = []solverSpec{
 	}},
 }
 
+// portfolio: further z3-new runs with other random seeds. Quantified goals are sensitive to the
+// solver's instantiation order; a different seed often decides in a fraction of a second what the
+// default seed does not decide at all.
+var portfolio = []solverSpec{
+	{name: "z3-new/seed3", bin: "z3-new", args: func(f string, t int) []string {
+		return []string{fmt.Sprintf("-T:%d", t), "smt.random_seed=3", "sat.random_seed=3", f}
+	}},
+	{name: "z3-new/seed11", bin: "z3-new", args: func(f string, t int) []string {
+		return []string{fmt.Sprintf("-T:%d", t), "smt.random_seed=11", "sat.random_seed=11", f}
+	}},
+}
+
 func runSolver(sp solverSpec, file string, tmo int, ctx context.Context) solverRes {
 	start := time.Now()
 	c, cancel := context.WithTimeout(ctx, time.Duration(tmo+2)*time.Second)
@@ -313,8 +325,9 @@ func (w *World) race(file, cfile, text string, opt SolveOpts) solverRes {
 	os.WriteFile(cfile, []byte("(set-option :produce-models true)\n"+text), 0644)
 	c, cancel := context.WithCancel(ctx)
 	defer cancel()
-	ch := make(chan solverRes, 3)
-	for _, sp := range solvers {
+	all := append(append([]solverSpec{}, solvers...), portfolio...)
+	ch := make(chan solverRes, len(all))
+	for _, sp := range all {
 		sp := sp
 		f := file
 		if sp.cvc5 {
@@ -324,7 +337,7 @@ func (w *World) race(file, cfile, text string, opt SolveOpts) solverRes {
 	}
 	best := solverRes{status: "unknown", solver: "none"}
 	total := 0.0
-	for i := 0; i < 3; i++ {
+	for i := 0; i < len(all); i++ {
 		rr := <-ch
 		total += rr.secs
 		if rr.status == "unsat" || rr.status == "sat" {
@@ -360,7 +373,7 @@ func (w *World) getModel(solver, file, cfile, text string, opt SolveOpts) string
 	mfile := file + ".model.smt2"
 	os.WriteFile(mfile, []byte("(set-option :produce-models true)\n"+text+"(get-model)\n"), 0644)
 	defer os.Remove(mfile)
-	for _, sp := range solvers {
+	for _, sp := range append(append([]solverSpec{}, solvers...), portfolio...) {
 		if sp.name == solver {
 			r := runSolver(sp, mfile, opt.Timeout, context.Background())
 			if len(r.raw) > 20000 {
